@@ -110,6 +110,23 @@ theorem C19_foreign_application_refused (app : Nat) (t : Table) (inv : Invite) (
     acceptInvite app t inv = none := by
   simp [acceptInvite, h]
 
+/-- **C19 (an invitation for another application is never usable, also after a restart).** The refused
+    invitation is neither in the table nor in storage: whatever the table held, if the invitation's id
+    was unknown before, no token reaches it after the refusal nor after any number of restarts. -/
+theorem C19_foreign_application_never_usable (app : Nat) (t : Table) (inv : Invite) (h : inv.app ≠ app)
+    (hnew : reachable t inv.id = false) (n : Nat) :
+    acceptInvite app t inv = none ∧
+    ∀ tok key x, lookup (Nat.repeat restart n t) tok key = some x → inviteIdOf x ≠ some inv.id := by
+  refine ⟨C19_foreign_application_refused app t inv h, ?_⟩
+  have hr : reachable (Nat.repeat restart n t) inv.id = false := by
+    induction n with
+    | zero => exact hnew
+    | succ n ih => simp only [Nat.repeat]; rw [reachable_restart]; exact ih
+  exact fun tok key x hl => lookup_none_of_unreachable hr tok key x hl
+
+/-- a restart neither revives a consumed invitation nor loses a pending one or an allowed peer -/
+theorem C19_restart_preserves_entries (t : Table) (e : Token × TokenType) : e ∈ restart t ↔ e ∈ t := mem_restart
+
 /-- **C19 (single use — full statement; holds for the code as it is since fix 7ec64bc).** Once
     `invite_accepted` has run for an invitation that was in the table once, under its own token, no
     token and no key reaches it any more: every later lookup returns something else or nothing. -/
